@@ -297,7 +297,93 @@ static QString errText(const QXmppError &e)
     return e.description;
 }
 
+// C19, SOCKS5 bytestreams: a transparent TCP hop between the receiver and the sender's SOCKS5 server. The relay rewrites the
+// stream host offer to point here; the SOCKS5 negotiation passes untouched, the payload behind it gets one fault.
+struct SocksTamper : QObject {
+    QTcpServer server;
+    QString upstreamHost;
+    quint16 upstreamPort = 0;
+    QJsonObject fault;
+    bool injected = false;
+    qint64 payloadSeen = 0;
+
+    struct Pipe {
+        QTcpSocket *down = nullptr, *up = nullptr;
+        QByteArray hs;      // bytes of the server's negotiation seen so far
+        int hsNeed = 2;     // grows once the connect reply's address type is known
+        int stage = 0;      // 0: method selection, 1: connect reply, 2: payload
+    };
+
+    SocksTamper()
+    {
+        server.listen(QHostAddress(QHostAddress::LocalHost), 0);
+        QObject::connect(&server, &QTcpServer::newConnection, this, [this]() {
+            while (auto *down = server.nextPendingConnection()) {
+                auto *p = new Pipe;
+                p->down = down;
+                p->up = new QTcpSocket(this);
+                p->up->connectToHost(upstreamHost, upstreamPort);
+                QObject::connect(down, &QTcpSocket::readyRead, this, [p]() { p->up->write(p->down->readAll()); });
+                QObject::connect(down, &QTcpSocket::disconnected, this, [p]() { p->up->disconnectFromHost(); });
+                QObject::connect(p->up, &QTcpSocket::readyRead, this, [this, p]() { fromServer(p, p->up->readAll()); });
+                QObject::connect(p->up, &QTcpSocket::disconnected, this, [this, p]() {
+                    if (fault["kind"].toString() == u"append" && !injected) {
+                        injected = true;
+                        J({ { "ev", "fault_injected" }, { "kind", "append" }, { "at", double(payloadSeen) } });
+                        p->down->write(QByteArray(fault["len"].toInt(1), 'Z'));
+                    }
+                    p->down->flush();
+                    p->down->disconnectFromHost();
+                });
+            }
+        });
+    }
+
+    void fromServer(Pipe *p, QByteArray data)
+    {
+        // pass the negotiation through unchanged
+        while (p->stage < 2 && !data.isEmpty()) {
+            const int take = qMin(int(data.size()), p->hsNeed - int(p->hs.size()));
+            p->hs += data.left(take);
+            p->down->write(data.left(take));
+            data = data.mid(take);
+            if (p->stage == 1 && p->hs.size() == 5 && p->hsNeed == 5) {
+                const int atyp = quint8(p->hs[3]);
+                p->hsNeed = 4 + (atyp == 3 ? 1 + quint8(p->hs[4]) : atyp == 4 ? 16 : 4) + 2;
+            }
+            if (p->hs.size() == p->hsNeed) {
+                p->stage++;
+                p->hs.clear();
+                p->hsNeed = 5;
+            }
+        }
+        if (data.isEmpty()) return;
+        const QString kind = fault["kind"].toString();
+        const qint64 at = qint64(fault["at"].toDouble(0));
+        const int len = qMax(1, fault["len"].toInt(1));
+        const qint64 start = payloadSeen;
+        payloadSeen += data.size();
+        if (!injected && !kind.isEmpty() && kind != u"append" && at >= start && at < start + data.size()) {
+            injected = true;
+            J({ { "ev", "fault_injected" }, { "kind", kind }, { "at", double(at) } });
+            const int off = int(at - start);
+            if (kind == u"drop") data.remove(off, len);
+            else if (kind == u"flip") data[off] = char(data[off] ^ (1 << (fault["bit"].toInt(0) % 8)));
+            else if (kind == u"duplicate") data.insert(off, data.mid(off, len));
+            else if (kind == u"earlyclose") {
+                p->down->write(data.left(off));
+                p->down->flush();
+                p->down->disconnectFromHost();
+                p->up->abort();
+                return;
+            }
+        }
+        p->down->write(data);
+    }
+};
+
 struct Case {
+    std::unique_ptr<SocksTamper> socksTamper;
     std::vector<std::unique_ptr<Cli>> clis;
     QMap<QString, QString> vars;
     int defaultTimeout = 3000;
@@ -535,7 +621,8 @@ struct Case {
             else if (m == u"disco") cl->addNewExtension<QXmppDiscoveryManager>();
             else if (m == u"transfer") {
                 auto *tm = cl->addNewExtension<QXmppTransferManager>();
-                tm->setSupportedMethods(QXmppTransferJob::InBandMethod);
+                const QString methods = st["transferMethods"].toString(u"ibb"_s);
+                tm->setSupportedMethods(methods == u"socks" ? QXmppTransferJob::Methods(QXmppTransferJob::SocksMethod) : methods == u"any" ? QXmppTransferJob::Methods(QXmppTransferJob::AnyMethod) : QXmppTransferJob::Methods(QXmppTransferJob::InBandMethod));
 #ifdef QXMPP_VERIF_HOOKS
                 if (st.contains("ibbBlockSize")) tm->verifSetIbbBlockSize(st["ibbBlockSize"].toInt());
 #endif
@@ -1149,6 +1236,38 @@ struct Case {
                         continue;
                     }
                     QByteArray out = stamp(o, k);
+                    if (tamper["socks"].toBool() && o["child"].toString() == u"query" && o["childns"].toString() == u"http://jabber.org/protocol/bytestreams" && o["type"].toString() == u"set") {
+                        // the receiver is told that the sender's SOCKS5 server lives at the tampering hop
+                        QDomDocument d;
+                        d.setContent(out, true);
+                        auto q = d.documentElement().firstChildElement();
+                        QString jid, host;
+                        int port = 0;
+                        QList<QDomElement> hosts;
+                        for (auto h = q.firstChildElement(); !h.isNull(); h = h.nextSiblingElement())
+                            if (h.tagName() == u"streamhost") hosts << h;
+                        for (auto &h : hosts) {
+                            if (host.isEmpty() && !h.attribute(u"host"_s).contains(u':')) {
+                                host = h.attribute(u"host"_s);
+                                port = h.attribute(u"port"_s).toInt();
+                                jid = h.attribute(u"jid"_s);
+                            }
+                            q.removeChild(h);
+                        }
+                        if (!host.isEmpty()) {
+                            socksTamper = std::make_unique<SocksTamper>();
+                            socksTamper->upstreamHost = host;
+                            socksTamper->upstreamPort = quint16(port);
+                            socksTamper->fault = tamper;
+                            auto h = d.createElement(u"streamhost"_s);
+                            h.setAttribute(u"jid"_s, jid);
+                            h.setAttribute(u"host"_s, u"127.0.0.1"_s);
+                            h.setAttribute(u"port"_s, int(socksTamper->server.serverPort()));
+                            q.appendChild(h);
+                            J({ { "ev", "socks_hop" }, { "upstream", host + u':' + QString::number(port) }, { "port", int(socksTamper->server.serverPort()) } });
+                            out = d.toByteArray(-1);
+                        }
+                    }
                     const bool isData = o["child"].toString() == u"data" && o["childns"].toString() == u"http://jabber.org/protocol/ibb" && o["type"].toString() == u"set";
                     const bool isClose = o["child"].toString() == u"close" && o["childns"].toString() == u"http://jabber.org/protocol/ibb" && o["type"].toString() == u"set";
                     if (isData) {
